@@ -37,7 +37,8 @@ def run(prop, path, repo, scratch):
     m = re.search(r"fn (kani_concrete_playback_\w+)", test)
     tname = m.group(1) if m else "kani_concrete_playback"
     env = dict(os.environ, CARGO_NET_OFFLINE="true")
-    p = subprocess.run(["cargo", "kani", "playback", "-Z", "concrete-playback", "--no-default-features", "--", tname],
+    feats = w.get("features") or []
+    p = subprocess.run(["cargo", "kani", "playback", "-Z", "concrete-playback", "--no-default-features"] + (["--features", ",".join(feats)] if feats else []) + ["--", tname],
                        cwd=crate, capture_output=True, text=True, env=env)
     print(p.stdout[-4000:])
     print(p.stderr[-4000:])
